@@ -246,3 +246,37 @@ V('c11-to-er7-normalises', 'C11', 'hl7apy/core.py',
   "        separator = encoding_chars.get('FIELD')\n        repetition = encoding_chars.get('REPETITION')",
   "        separator = encoding_chars.get('FIELD')\n        repetition = encoding_chars.get('REPETITION')\n        self._last_child_index = max(self._last_child_index, self._last_allowed_child_index)",
   rule='C11-L7')
+
+# ---------------------------------------------------------------- C12
+V('c12-segment-add-bookkeeping-first', 'C12', 'hl7apy/core.py',
+  "        super(Segment, self).add(obj)\n        # updates the index of the last children not allowed\n        if obj.name and self.allow_infinite_children:\n            field_index = int(obj.name[4:])\n            if field_index > self._last_child_index:\n                self._last_child_index = field_index",
+  "        # updates the index of the last children not allowed\n        if obj.name and self.allow_infinite_children:\n            field_index = int(obj.name[4:])\n            if field_index > self._last_child_index:\n                self._last_child_index = field_index\n        super(Segment, self).add(obj)",
+  rule='C12-O')
+V('c12-remove-by-name-then-check', 'C12', 'hl7apy/core.py',
+  "        child = self.child_at_index(name, index)\n        self.remove(child)\n        return child",
+  "        child = self.child_at_index(name, index)\n        self.remove(child)\n        if child is None:\n            raise ChildNotFound(name)\n        return child",
+  rule='C12-O')
+V('c12-append-then-cardinality', 'C12', 'hl7apy/core.py',
+  "                self._remove_from_traversal_index(child)\n                self.list.append(child)\n                try:\n                    self.indexes[child.name].append(child)\n                except KeyError:\n                    self.indexes[child.name] = [child]",
+  "                self._remove_from_traversal_index(child)\n                self.list.append(child)\n                try:\n                    self.indexes[child.name].append(child)\n                except KeyError:\n                    self.indexes[child.name] = [child]\n                if len(self.indexes[child.name]) > 100:\n                    raise MaxChildLimitReached(self.element, child, 100)",
+  rule='C12-O')
+V('c12-group-parse-children-clears-first', 'C12', 'hl7apy/core.py',
+  "        children = super(Group, self).parse_children(text, **kwargs)\n        self.children = children",
+  "        self.children = []\n        children = super(Group, self).parse_children(text, **kwargs)\n        self.children = children",
+  rule='C12-O')
+V('c12-component-add-after-super', 'C12', 'hl7apy/core.py',
+  "        # base datatype components can't have more than one child\n        if self.name and is_base_datatype(self.datatype, self.version) and \\\n                len(self.children) >= 1:\n            raise MaxChildLimitReached(self, obj, 1)\n\n        return super(Field, self).add(obj)",
+  "        res = super(Field, self).add(obj)\n        # base datatype components can't have more than one child\n        if self.name and is_base_datatype(self.datatype, self.version) and \\\n                len(self.children) > 1:\n            raise MaxChildLimitReached(self, obj, 1)\n        return res",
+  rule='C12-O')
+V('c12-set-value-datatype-first', 'C12', 'hl7apy/core.py',
+  "            children = self.parse_children(value)\n            if Validator.is_tolerant(self.validation_level) and \\\n                    is_base_datatype(self.datatype, self.version) and len(children) > 1:\n                self.datatype = None\n            self.children = children",
+  "            self.datatype = None if Validator.is_tolerant(self.validation_level) else self.datatype\n            children = self.parse_children(value)\n            self.children = children",
+  rule='C12-O')
+V('c12-fix-replace-child', 'C12', 'hl7apy/core.py',
+  "            self.remove(old_child)\n            self.insert(list_index, new_child, by_name_index)",
+  "            self._check_replacement(old_child, new_child)\n            self._swap(list_index, by_name_index, old_child, new_child)",
+  expect='fixed:C12-O|core.ElementList.replace_child')
+V('c12-twin-reorder-independent', 'C12', 'hl7apy/core.py',
+  "            list_index = self.list.index(old_child)\n            by_name_index = self.indexes[old_child.name].index(old_child)",
+  "            by_name_index = self.indexes[old_child.name].index(old_child)\n            list_index = self.list.index(old_child)",
+  expect='clean')
